@@ -172,6 +172,12 @@ func (c *Canon) TerminationOf(l *Loop, ancestorFn func(*ssa.Function) bool) Loop
 				}
 				why = append(why, fmt.Sprintf("%s decreases but no lower-bound test against a stable bound is evaluated on every round", phiName(phi)))
 			default:
+				if lo == 0 && hi > 0 {
+					if b, ok := c.shrinkingBound(l, phi, backVals); ok {
+						v.Kind, v.Reason = "count-up", fmt.Sprintf("%s advances or the list it is bounded by loses an element on every round (delete-and-stay), continues only while %s", phiName(phi), b)
+						return v
+					}
+				}
 				why = append(why, fmt.Sprintf("%s: some path round the loop does not move it (step range %d..%d)", phiName(phi), lo, hi))
 			}
 		case *types.Pointer:
@@ -186,6 +192,9 @@ func (c *Canon) TerminationOf(l *Loop, ancestorFn func(*ssa.Function) bool) Loop
 					ok = false
 					break
 				}
+			}
+			if ok && usesLazyInit(backVals, phi, l) && !nonNilAtLatch(l, backVals) {
+				ok = false
 			}
 			if ok && len(dirs) == 1 {
 				for d := range dirs {
@@ -206,6 +215,212 @@ func (c *Canon) TerminationOf(l *Loop, ancestorFn func(*ssa.Function) bool) Loop
 	}
 	v.Reason = strings.Join(why, "; ")
 	return v
+}
+
+// shrinkingBound recognises the delete-and-stay loop: `for i < len(s) { ...; if drop { s =
+// s[:len(s)-1] (after shifting) ; i-- }; i++ }`. The counter phi steps by 0 or more, the bound is
+// len of a slice-typed header phi s, and on every path round the loop either the counter advances
+// or s is re-sliced to a shorter prefix of itself: len(s) - i decreases every round.
+func (c *Canon) shrinkingBound(l *Loop, phi *ssa.Phi, backVals []ssa.Value) (string, bool) {
+	h := l.Header
+	for _, in := range h.Instrs {
+		sp, ok := in.(*ssa.Phi)
+		if !ok {
+			break
+		}
+		if _, isSlice := sp.Type().Underlying().(*types.Slice); !isSlice {
+			continue
+		}
+		// the bound test: phi(+c) < len(sp), on every round
+		test := ""
+		for b := range l.Body {
+			iff, ok := b.Instrs[len(b.Instrs)-1].(*ssa.If)
+			if !ok {
+				continue
+			}
+			dom := true
+			for _, la := range l.Latches {
+				if !b.Dominates(la) {
+					dom = false
+				}
+			}
+			if !dom || l.Body[b.Succs[0]] == l.Body[b.Succs[1]] {
+				continue
+			}
+			bo, ok := iff.Cond.(*ssa.BinOp)
+			if !ok || bo.Op != token.LSS || !l.Body[b.Succs[0]] {
+				continue
+			}
+			if _, ok := intDeltas(bo.X, phi, l, map[ssa.Value]bool{}); !ok {
+				continue
+			}
+			if call, ok := bo.Y.(*ssa.Call); ok {
+				if bi, ok := call.Call.Value.(*ssa.Builtin); ok && bi.Name() == "len" && call.Call.Args[0] == ssa.Value(sp) {
+					test = c.Of(bo.X) + " < " + c.Of(bo.Y)
+				}
+			}
+		}
+		if test == "" {
+			continue
+		}
+		okAll := true
+		k := 0
+		for i, pred := range h.Preds {
+			if !l.Body[pred] {
+				continue
+			}
+			pairs, ok := jointSteps(backVals[k], sp.Edges[i], phi, sp, l, 0)
+			k++
+			if !ok {
+				okAll = false
+				break
+			}
+			for _, pr := range pairs {
+				if !(pr[0] >= 1 && pr[1] <= 0) && !(pr[0] >= 0 && pr[1] < 0) {
+					okAll = false
+				}
+			}
+		}
+		if okAll {
+			return test, true
+		}
+	}
+	return "", false
+}
+
+// jointSteps enumerates, path by path, the pairs (change of the counter, change of the length of
+// the slice) between the header and a back edge. Phis of one block are resolved edge by edge
+// together, which keeps "the counter stays" and "the slice shrinks" on the same path.
+func jointSteps(vi, vs ssa.Value, pi, ps *ssa.Phi, l *Loop, depth int) ([][2]int64, bool) {
+	if depth > 12 {
+		return nil, false
+	}
+	phiOf := func(v ssa.Value) *ssa.Phi {
+		if p, ok := v.(*ssa.Phi); ok && p != pi && p != ps && l.Body[p.Block()] && p.Block() != l.Header {
+			return p
+		}
+		return nil
+	}
+	// constants added to the counter are peeled off first, so that merges of the counter and of
+	// the slice that sit in one block are resolved together
+	if x, ok := vi.(*ssa.BinOp); ok && (x.Op == token.ADD || x.Op == token.SUB) {
+		if k, isC := ConstInt(x.Y); isC {
+			inner, ok := jointSteps(x.X, vs, pi, ps, l, depth+1)
+			if !ok {
+				return nil, false
+			}
+			for i := range inner {
+				if x.Op == token.ADD {
+					inner[i][0] += k
+				} else {
+					inner[i][0] -= k
+				}
+			}
+			return inner, true
+		}
+		return nil, false
+	}
+	a, b := phiOf(vi), phiOf(vs)
+	switch {
+	case a != nil && b != nil && a.Block() == b.Block():
+		var out [][2]int64
+		for e := range a.Edges {
+			ps2, ok := jointSteps(a.Edges[e], b.Edges[e], pi, ps, l, depth+1)
+			if !ok {
+				return nil, false
+			}
+			out = append(out, ps2...)
+		}
+		return out, true
+	case a != nil:
+		var out [][2]int64
+		for e := range a.Edges {
+			ps2, ok := jointSteps(a.Edges[e], vs, pi, ps, l, depth+1)
+			if !ok {
+				return nil, false
+			}
+			out = append(out, ps2...)
+		}
+		return out, true
+	case b != nil:
+		var out [][2]int64
+		for e := range b.Edges {
+			ps2, ok := jointSteps(vi, b.Edges[e], pi, ps, l, depth+1)
+			if !ok {
+				return nil, false
+			}
+			out = append(out, ps2...)
+		}
+		return out, true
+	}
+	// leaves: the counter as phi + constants ...
+	var di []int64
+	switch x := vi.(type) {
+	case *ssa.BinOp:
+		k, isC := ConstInt(x.Y)
+		if !isC || (x.Op != token.ADD && x.Op != token.SUB) {
+			return nil, false
+		}
+		inner, ok := jointSteps(x.X, vs, pi, ps, l, depth+1)
+		if !ok {
+			return nil, false
+		}
+		for i := range inner {
+			if x.Op == token.ADD {
+				inner[i][0] += k
+			} else {
+				inner[i][0] -= k
+			}
+		}
+		return inner, true
+	default:
+		if vi != ssa.Value(pi) {
+			return nil, false
+		}
+		di = []int64{0}
+	}
+	// ... and the slice as a prefix of itself
+	ds, ok := sliceShrink(vs, ps, 0)
+	if !ok {
+		return nil, false
+	}
+	var out [][2]int64
+	for _, d := range di {
+		out = append(out, [2]int64{d, ds})
+	}
+	return out, true
+}
+
+// sliceShrink: v is ps, or ps[:len(ps)-k] (possibly repeated): returns the change of length (<= 0).
+func sliceShrink(v ssa.Value, ps *ssa.Phi, depth int) (int64, bool) {
+	if v == ssa.Value(ps) {
+		return 0, true
+	}
+	if depth > 4 {
+		return 0, false
+	}
+	sl, ok := v.(*ssa.Slice)
+	if !ok || sl.Low != nil || sl.High == nil {
+		return 0, false
+	}
+	base, ok := sliceShrink(sl.X, ps, depth+1)
+	if !ok {
+		return 0, false
+	}
+	// High = len(X) - k
+	bo, ok := sl.High.(*ssa.BinOp)
+	if !ok || bo.Op != token.SUB {
+		return 0, false
+	}
+	k, isC := ConstInt(bo.Y)
+	call, isCall := bo.X.(*ssa.Call)
+	if !isC || k <= 0 || !isCall {
+		return 0, false
+	}
+	if bi, ok := call.Call.Value.(*ssa.Builtin); !ok || bi.Name() != "len" || call.Call.Args[0] != sl.X {
+		return 0, false
+	}
+	return base - k, true
 }
 
 func keysOf(m map[string]bool) []string {
@@ -230,6 +445,11 @@ func phiName(phi *ssa.Phi) string {
 	}
 	return phi.Name()
 }
+
+// LowerBound, when set, returns a constant lower bound of an integer value (used for steps of the
+// form i += 1 + counter). Lower bounds only: a larger step does not hurt a count-up loop whose
+// bound test is evaluated every round.
+var LowerBound func(v ssa.Value) (int64, bool)
 
 // intDeltas returns the possible differences v - phi when v is computed from phi by adding and
 // subtracting constants, through phis inside the loop.
@@ -260,6 +480,25 @@ func intDeltas(v ssa.Value, phi *ssa.Phi, l *Loop, seen map[ssa.Value]bool) ([]i
 				}
 			}
 			return out, true
+		}
+		// x + n where n is provably non-negative (a counter field): at least the delta of x
+		if x.Op == token.ADD && LowerBound != nil {
+			for _, pair := range [][2]ssa.Value{{x.X, x.Y}, {x.Y, x.X}} {
+				if _, isC := ConstInt(pair[1]); isC {
+					continue
+				}
+				if lb, ok := LowerBound(pair[1]); ok && lb >= 0 {
+					ds, ok := intDeltas(pair[0], phi, l, seen)
+					if !ok {
+						return nil, false
+					}
+					out := make([]int64, len(ds))
+					for i, d := range ds {
+						out[i] = d + lb
+					}
+					return out, true
+				}
+			}
 		}
 		if k, ok := ConstInt(x.X); ok && x.Op == token.ADD {
 			ds, ok := intDeltas(x.Y, phi, l, seen)
@@ -334,7 +573,10 @@ func linkSteps(v ssa.Value, phi *ssa.Phi, l *Loop, ancestorFn func(*ssa.Function
 		if x.Block() == phi.Block() || !l.Body[x.Block()] {
 			return false
 		}
-		for _, e := range x.Edges {
+		for i, e := range x.Edges {
+			if lazyInitEdge(x, i, phi) {
+				continue // the cursor is still nil on this edge: initialised inside the loop, at most once (see nonNilAtLatch)
+			}
 			if !linkSteps(e, phi, l, ancestorFn, dirs, stepped, seen) {
 				return false
 			}
@@ -574,6 +816,14 @@ func invariantValue(l *Loop, v ssa.Value, seen map[ssa.Value]bool) bool {
 		return true
 	}
 	switch x := v.(type) {
+	case *ssa.UnOp:
+		// a re-load of the same place is invariant when nothing in the loop can write memory
+		if x.Op == token.MUL && !loopWritesMemory(l) {
+			return invariantValue(l, x.X, seen)
+		}
+		return false
+	case *ssa.FieldAddr:
+		return invariantValue(l, x.X, seen)
 	case *ssa.Extract:
 		return invariantValue(l, x.Tuple, seen)
 	case *ssa.Field:
@@ -590,6 +840,25 @@ func invariantValue(l *Loop, v ssa.Value, seen map[ssa.Value]bool) bool {
 			}
 		}
 		return ok
+	}
+	return false
+}
+
+// loopWritesMemory: the loop body contains an instruction that may write memory (a store, a map
+// update, a send, or any call other than len/cap).
+func loopWritesMemory(l *Loop) bool {
+	for b := range l.Body {
+		for _, in := range b.Instrs {
+			switch x := in.(type) {
+			case *ssa.Store, *ssa.MapUpdate, *ssa.Send, *ssa.Go, *ssa.Defer:
+				return true
+			case *ssa.Call:
+				if bi, ok := x.Call.Value.(*ssa.Builtin); ok && (bi.Name() == "len" || bi.Name() == "cap") {
+					continue
+				}
+				return true
+			}
+		}
 	}
 	return false
 }
@@ -624,4 +893,229 @@ func (c *Canon) loopDesc(l *Loop) string {
 		parts = parts[:3]
 	}
 	return "exit-tests[" + strings.Join(parts, " ; ") + "]"
+}
+
+// CounterFields: (struct type, field index) pairs of integer fields that only ever hold
+// non-negative values: every store in the module writes a non-negative constant or the field's
+// own value plus a positive constant.
+func (p *Program) nonNegField(st *types.Struct, idx int) bool {
+	type key struct {
+		st  *types.Struct
+		idx int
+	}
+	if p.nonNegFields == nil {
+		p.nonNegFields = map[any]bool{}
+		bad := map[key]bool{}
+		seen := map[key]bool{}
+		for fn := range p.AllFunctions() {
+			if !IsModPkg(FnPkgPath(fn)) {
+				continue
+			}
+			for _, b := range fn.Blocks {
+				for _, in := range b.Instrs {
+					sto, ok := in.(*ssa.Store)
+					if !ok {
+						continue
+					}
+					fa, ok := sto.Addr.(*ssa.FieldAddr)
+					if !ok {
+						continue
+					}
+					pt, ok := fa.X.Type().Underlying().(*types.Pointer)
+					if !ok {
+						continue
+					}
+					s, ok := pt.Elem().Underlying().(*types.Struct)
+					if !ok {
+						continue
+					}
+					k := key{s, fa.Field}
+					seen[k] = true
+					okStore := false
+					if c, isC := ConstInt(sto.Val); isC && c >= 0 {
+						okStore = true
+					}
+					if bo, isB := sto.Val.(*ssa.BinOp); isB && bo.Op == token.ADD {
+						if c, isC := ConstInt(bo.Y); isC && c > 0 {
+							if ld, isL := bo.X.(*ssa.UnOp); isL && ld.Op == token.MUL {
+								if fa2, isF := ld.X.(*ssa.FieldAddr); isF && fa2.Field == fa.Field && fa2.X == fa.X {
+									okStore = true
+								}
+							}
+						}
+					}
+					if !okStore {
+						bad[k] = true
+					}
+				}
+			}
+		}
+		for k := range seen {
+			if !bad[k] {
+				p.nonNegFields[k] = true
+			}
+		}
+	}
+	return p.nonNegFields[key{st, idx}]
+}
+
+// LowerBoundOf: a constant lower bound of an integer value: a constant, a load of a counter field
+// (>= 0: nonNegField; composite literals leave such a field at zero), len/cap (>= 0), or a sum of
+// such values.
+func (p *Program) LowerBoundOf(v ssa.Value) (int64, bool) {
+	switch x := v.(type) {
+	case *ssa.Const:
+		return ConstInt(x)
+	case *ssa.BinOp:
+		if x.Op != token.ADD {
+			return 0, false
+		}
+		a, ok1 := p.LowerBoundOf(x.X)
+		b, ok2 := p.LowerBoundOf(x.Y)
+		return a + b, ok1 && ok2
+	case *ssa.Call:
+		if b, ok := x.Call.Value.(*ssa.Builtin); ok && (b.Name() == "len" || b.Name() == "cap") {
+			return 0, true
+		}
+	case *ssa.UnOp:
+		if x.Op != token.MUL {
+			return 0, false
+		}
+		fa, ok := x.X.(*ssa.FieldAddr)
+		if !ok {
+			return 0, false
+		}
+		pt, ok := fa.X.Type().Underlying().(*types.Pointer)
+		if !ok {
+			return 0, false
+		}
+		s, ok := pt.Elem().Underlying().(*types.Struct)
+		if !ok {
+			return 0, false
+		}
+		if bt, ok := s.Field(fa.Field).Type().Underlying().(*types.Basic); !ok || bt.Info()&types.IsInteger == 0 {
+			return 0, false
+		}
+		return 0, p.nonNegField(s, fa.Field)
+	}
+	return 0, false
+}
+
+// usesLazyInit: some inner merge on the way from the cursor to a back-edge value has a lazy
+// initialisation edge.
+func usesLazyInit(backVals []ssa.Value, phi *ssa.Phi, l *Loop) bool {
+	seen := map[ssa.Value]bool{}
+	var rec func(v ssa.Value) bool
+	rec = func(v ssa.Value) bool {
+		if v == nil || seen[v] || v == ssa.Value(phi) {
+			return false
+		}
+		seen[v] = true
+		switch x := v.(type) {
+		case *ssa.Phi:
+			if !l.Body[x.Block()] {
+				return false
+			}
+			for i, e := range x.Edges {
+				if lazyInitEdge(x, i, phi) || rec(e) {
+					return true
+				}
+			}
+		case *ssa.UnOp:
+			if fa, ok := x.X.(*ssa.FieldAddr); ok {
+				return rec(fa.X)
+			}
+		case *ssa.Call:
+			for _, a := range x.Call.Args {
+				if rec(a) {
+					return true
+				}
+			}
+		}
+		return false
+	}
+	for _, v := range backVals {
+		if rec(v) {
+			return true
+		}
+	}
+	return false
+}
+
+// lazyInitEdge: the edge of an inner merge is only taken while the loop's cursor phi is nil
+// (`if cursor == nil { cursor = start }` at the top of the body).
+func lazyInitEdge(inner *ssa.Phi, edge int, phi *ssa.Phi) bool {
+	if edge >= len(inner.Block().Preds) {
+		return false
+	}
+	pred := inner.Block().Preds[edge]
+	for d := pred; d != nil; d = d.Idom() {
+		up := d.Idom()
+		if up == nil || len(up.Instrs) == 0 {
+			continue
+		}
+		iff, ok := up.Instrs[len(up.Instrs)-1].(*ssa.If)
+		if !ok {
+			continue
+		}
+		bo, ok := iff.Cond.(*ssa.BinOp)
+		if !ok || (bo.Op != token.EQL && bo.Op != token.NEQ) {
+			continue
+		}
+		isPhiNil := (bo.X == ssa.Value(phi) && IsNilConst(bo.Y)) || (bo.Y == ssa.Value(phi) && IsNilConst(bo.X))
+		if !isPhiNil {
+			continue
+		}
+		k := 0
+		if bo.Op == token.NEQ {
+			k = 1
+		}
+		// d must be the successor taken when the cursor is nil, and not a merge of both outcomes
+		if up.Succs[k] == d && len(d.Preds) == 1 {
+			return true
+		}
+	}
+	return false
+}
+
+// nonNilAtLatch: every value fed back into the cursor is tested against nil with the loop left
+// when it is nil, before the back edge - so the lazily initialised walk sees a nil cursor in
+// its first round only.
+func nonNilAtLatch(l *Loop, backVals []ssa.Value) bool {
+	for _, v := range backVals {
+		ok := false
+		for b := range l.Body {
+			iff, isIf := b.Instrs[len(b.Instrs)-1].(*ssa.If)
+			if !isIf {
+				continue
+			}
+			bo, isB := iff.Cond.(*ssa.BinOp)
+			if !isB || (bo.Op != token.EQL && bo.Op != token.NEQ) {
+				continue
+			}
+			if !((bo.X == v && IsNilConst(bo.Y)) || (bo.Y == v && IsNilConst(bo.X))) {
+				continue
+			}
+			k := 0
+			if bo.Op == token.NEQ {
+				k = 1
+			}
+			if l.Body[b.Succs[k]] {
+				continue // the loop is not left when the value is nil
+			}
+			dom := true
+			for _, la := range l.Latches {
+				if !b.Dominates(la) {
+					dom = false
+				}
+			}
+			if dom {
+				ok = true
+			}
+		}
+		if !ok {
+			return false
+		}
+	}
+	return true
 }
